@@ -36,7 +36,13 @@ func VH_C15_conversion() {
 	cmgr.Settings = &conversion.WebhookSettings{}
 	e.op.ConversionWebhookManager = cmgr
 	// hookA converts v1->v2, hookB converts v2->v3 (a chain of two hooks)
-	hA := hook.VNewHook("hookA", vhConvCfg("convA", conversion.Rule{FromVersion: "v1", ToVersion: "v2"}), e.kmgr, e.smgr, nil, cmgr)
+	// a binding may declare several rules: hookA optionally also converts v0->v1 (never
+	// needed by the requests below, and declared last)
+	rulesA := []conversion.Rule{{FromVersion: "v1", ToVersion: "v2"}}
+	if zz.Bool("hookA_declares_a_second_rule") {
+		rulesA = append(rulesA, conversion.Rule{FromVersion: "v0", ToVersion: "v1"})
+	}
+	hA := hook.VNewHook("hookA", vhConvCfg("convA", rulesA...), e.kmgr, e.smgr, nil, cmgr)
 	hB := hook.VNewHook("hookB", vhConvCfg("convB", conversion.Rule{FromVersion: "v2", ToVersion: "v3"}), e.kmgr, e.smgr, nil, cmgr)
 	e.hooks = append(e.hooks, hA, hB)
 	// optionally a third hook declares hookA's step under another spelling of the
